@@ -977,11 +977,12 @@ fn gen_val(rng: &mut Rng, code: u8, valid: bool) -> Vec<u8> {
         3 | 4 | 5 | 9 | 20 | 35 => rng.bytes(4),
         6 => vec![],
         7 | 18 => rng.bytes(8),
-        8 | 10 => { let n = k(rng, 4); rng.bytes(4 * n) }
-        16 => { let n = k(rng, 8); rng.bytes(8 * n) }
+        // list values now and then repeat elements (crate::props::c07::units): nothing may merge or drop them
+        8 | 10 => { let n = k(rng, 4); crate::props::c07::units(rng, 4, n) }
+        16 => { let n = k(rng, 8); crate::props::c07::units(rng, 8, n) }
         21 => rng.bytes(5),
-        25 => { let n = k(rng, 20); rng.bytes(20 * n) }
-        32 => { let n = k(rng, 12); rng.bytes(12 * n) }
+        25 => { let n = k(rng, 20); crate::props::c07::units(rng, 20, n) }
+        32 => { let n = k(rng, 12); crate::props::c07::units(rng, 12, n) }
         128 => { let n = if big { 300 } else { rng.usize(0, 12) }; rng.bytes(4 + n) }
         255 => { let n = if big { 260 } else { rng.usize(0, 9) }; rng.bytes(n) }
         _ => { let n = rng.usize(0, 9); rng.bytes(n) }
@@ -1234,11 +1235,14 @@ fn gen_comms(rng: &mut Rng) -> String {
     if n == 0 { return "-".into(); }
     // sometimes only one or two flavours
     let only: Option<u64> = if rng.chance(1, 3) { Some(rng.below(4)) } else { None };
-    (0..n).map(|_| {
+    let mut l: Vec<String> = (0..n).map(|_| {
         let mut c = gen_comm(rng);
         if let Some(k) = only { while rng.chance(3, 4) && !c.starts_with(['s', 'e', 'v', 'l'][k as usize]) { c = gen_comm(rng); } }
         c
-    }).collect::<Vec<_>>().join(",")
+    }).collect();
+    // a set of communities may name one community twice: what was stored is what was given
+    if rng.chance(1, 4) { for _ in 0..rng.usize(1, 3) { let e = rng.pick(&l).clone(); let at = rng.usize(0, l.len()); l.insert(at, e); } }
+    l.join(",")
 }
 
 fn gen_pm(rng: &mut Rng) -> String {
